@@ -23,6 +23,7 @@ Record case := {
   c_simplices : list mat; c_vols : vec;        (* hook: Delaunay simplices of the hull vertices, their volumes *)
   c_idx : list nat; c_probs : mat;             (* hook: simplex index and barycentric weights per sample *)
   c_out : mat;                                 (* returned samples *)
+  c_hullvol : Q;                               (* volume of the convex hull of the cloud (scipy ConvexHull.volume) *)
   c_tol : Q; c_tolv : Q }.
 
 Fixpoint forall2b {X Y} (f : X -> Y -> bool) (a : list X) (b : list Y) : bool :=
@@ -36,6 +37,8 @@ Definition verdict (c : case) : bool :=
   Nat.eqb (length (c_out c)) (c_nreq c) &&
   (* every simplex vertex is one of the given points, every simplex has m+1 vertices *)
   forallb (fun s => Nat.eqb (length s) (S (c_m c)) && forallb (is_row_of (c_P c)) s) (c_simplices c) &&
+  (* the simplices tile the hull: their volumes add up to the hull volume *)
+  close (c_tolv c) (c_tolv c) (sumQ (map simplex_vol (c_simplices c))) (c_hullvol c) &&
   (* selection weights are the simplex volumes *)
   forall2b (fun s v => close (c_tolv c) (c_tolv c) (simplex_vol s) v) (c_simplices c) (c_vols c) &&
   (* every sample: valid barycentric weights, valid simplex index, sample = weighted combination *)
